@@ -733,6 +733,12 @@ class World:
         if op == "file":   # the user (re)writes a file between transactions: same line as in the header
             self._header(t)
             return "ok"
+        if op == "rm":      # rm <handler> <path>: the user deletes a file behind the handler's back
+            fs = self.fs.get(t[1])
+            if fs is None:
+                return "bad-op"
+            fs.delete_file(Path(t[2]))
+            return "ok"
         if op == "sparse":  # sparse <handler> <path> <size>: a file of <size> zero bytes that occupies no
             # space (native sandbox only; implementation-only scenarios: the model cannot hold 2^32 bytes)
             fs = self.fs.get(t[1])
